@@ -40,6 +40,10 @@ HANDWRITTEN = [
     ('designator-depth-33', 'struct S { int a; } ;\nint x[1]' + '[1]' * 34 + ' = {' + '[0]' * 35 + ' = 1};\n'),
     ('attr-eof', '[[foo('),
     ('div-zero', 'int x = 1/0; int y = 1%0; long z = (-0x7fffffffffffffff-1) / -1;\n'),
+    ('offsetof-no-type', 'int x = __builtin_offsetof(, x);\n'), ('zero-size-elements', 'int a[5][0]; int b[0][3]; struct { int x[0]; } c[4];\n'),
+    ('addr-deref-string', 'char *p = &*"abc"; int a[3]; int *q = &*a; char c = *"x";\n'), ('struct-condition', 'struct s { int a; } x; int f(void) { return x ? 1 : 2; }\n'),
+    ('for-missing-semicolon', 'void f(void) { int i; for (i = 0 i < 3; ) ; }\n'), ('for-missing-semicolon2', 'void f(void) { for (int i = 0; i < 3 i++) ; }\n'),
+    ('struct-incdec', 'struct s { int a; } x; void f(void) { x++; }\n'), ('void-cast-int', 'int f(void) { return (int)(void)0; }\n'),
     ('rem-overflow', 'long z = (-0x7fffffffffffffff-1) % -1;\n'), ('rem-overflow-case', 'int f(long v){ switch (v) { case (-0x7fffffffffffffffLL-1) % -1: return 1; } return 0; }\n'),
     ('rem-overflow-int', 'int z = (-0x7fffffff-1) % -1; int w = (-0x7fffffff-1) / -1; enum { E = (-0x7fffffffffffffffLL-1) % -1LL };\n'),
     ('backslash-nul-string', b'char *s = "a\\\x00b";\n'), ('backslash-nul-char', b"int c = '\\\x00';\n"), ('backslash-nul-E', b'#define S(x) #x\nchar *s = S("\\\x00");\n'),
@@ -338,6 +342,19 @@ def run(ctx):
             if rc not in (1, 2) or not err:
                 ctx.violation('%s: status %d, stderr %r (a non-zero status 1/2 and a message are required)' % (what, rc, txt(err)[:100]),
                               {'cmd': cmd[1:]}, 'json', key='io:' + what)
+        # several input files in one invocation (the scanner chain; fixed 2d8cf1b: use after free of the finished scanner)
+        multi = []
+        for i in range(4):
+            f = os.path.join(work, 'm%d.c' % i)
+            open(f, 'w').write('int multi%d = %d;\n' % (i, i) + ('/* tail */' if i % 2 else ''))
+            multi.append(f)
+        for cmd in ([san_exe or exe] + multi, [san_exe or exe, '-E'] + multi[:2], [san_exe or exe, multi[0], os.path.join(work, 'missing.c'), multi[1]]):
+            rc, out, err = run_limited(cmd, timeout=60, env=env, aslimit=not san_exe)
+            stats['inputs'] += 1
+            sig = classify(rc, txt(err))
+            if sig or rc not in (0, 1):
+                ctx.violation('several input files: cproc-qbe ends abnormally (%s, status %d)' % (sig, rc), {'cmd': [os.path.basename(c) for c in cmd[1:]]}, 'json',
+                              key=sig or 'multi-input:status%d' % rc)
         rc, out, err = sh('%s %s >/dev/full' % (exe, okc), timeout=20)
         stats['inputs'] += 1
         if rc == 0:
